@@ -656,7 +656,7 @@ def spellings(x: int) -> list[tuple[str, str, str]]:
             add(greedy[1:] + greedy[:1], name + ":rotated-order")
             if "M" not in units and any(u in "HS" for u in units):
                 add(greedy, name + ":time-component-without-T", no_t=True)
-    _SPELLINGS[x] = sorted(found.values())
+    _SPELLINGS[x] = sorted(found.values(), key=lambda t: (len(t[0]), t[0]))  # the plainest texts first
     return _SPELLINGS[x]
 
 
@@ -719,8 +719,8 @@ def dur_cases(r: Any, tier: str) -> list[dict[str, Any]]:
             field = DUR_FIELDS[(xi + si) % 4]
             beyond = SEC if field.startswith("max") else -SEC
             for shape, d in (("eq", 0), ("eq", beyond if si % 2 else -beyond), ("window", 0), ("window", beyond)):
-                if tier == "quick" and shape == "window" and ((si + xi) % 2 or (cls == "other-order" and d == 0)):
-                    continue  # quick: the min < max window for every other spelling (lower bound = upper bound for every one)
+                if tier == "quick" and ((shape == "window" and ((si + xi) % 2 or (cls == "other-order" and d == 0))) or (shape == "eq" and d and (si + xi) % 2 == 0)):
+                    continue  # quick: every spelling as lower bound = upper bound with the quantity on it; beyond it, or the min < max window, alternately
                 k += 1
                 emit(f"dur:{cls}:{shape}:{'on-bound' if d == 0 else 'bound%+ds' % (d // SEC)}:{field}:{text}", x, field, text, cls, how, shape, d, k)
     for oi, text in enumerate(OUTSIDE_GRAMMAR):
@@ -786,8 +786,8 @@ def run(tier: str, driver_ok: bool) -> Result:
         "1DT1H1M1S, PT36H, random sums (quick: 2, thorough: 24)} written as seconds / minutes / hours / days / weeks only and as every mix over the 31 "
         "subsets of W/D/H/M/S -- normalised, not normalised, first unit zero, zero components, leading zeros, T section present / absent -- plus the "
         "same components in orders / T placements outside the grammar (control if refused, exact value if read), as declared max / min of validity / "
-        "overlap (rotating), lower = upper bound (same text / another spelling) and one-day window (quick: every other spelling), quantity on the "
-        "bound and one second beyond; loader's durations compared with own integer arithmetic, verdict with the documented region; "
+        "overlap (rotating), lower = upper bound (same text / another spelling) and one-day window, quantity on the bound and one second beyond (quick: "
+        "every spelling on lower = upper bound, then alternately one second beyond it / the window on and beyond its bound); loader's durations compared with own integer arithmetic, verdict with the documented region; "
         "non-trivial = distinct (timeline, policy, flags, now[, zone, spelling]) input"
     )
     r = lib.rng("C05")
